@@ -14,7 +14,7 @@ enum { FMT_XZ, FMT_LZMA, FMT_LZ };
 enum { D_STREAM, D_STREAM_C, D_MT, D_MT_C, D_AUTO, D_AUTO_C, D_ALONE, D_LZIP, D_LZIP_C, D_BLOCKAPI, D_N };
 static const char *DN[] = { "stream", "stream+concat", "mt2", "mt2+concat", "auto", "auto+concat", "alone", "lzip", "lzip+concat", "block-api-v0" };
 static int dk_concat(int k) { return k == D_STREAM_C || k == D_MT_C || k == D_AUTO_C || k == D_LZIP_C; }
-static int seed_one_block;
+static int seed_one_block; static size_t nocheck_end;	// bytes [0, nocheck_end) belong to a Stream without integrity check
 static int dk_applies(int k, int fmt) { if (k == D_BLOCKAPI) return fmt == FMT_XZ && seed_one_block; if (fmt == FMT_XZ) return k <= D_AUTO_C; if (fmt == FMT_LZMA) return k == D_ALONE || k == D_AUTO || k == D_AUTO_C; return k == D_LZIP || k == D_LZIP_C || k == D_AUTO || k == D_AUTO_C; }
 typedef struct { lzma_ret r; size_t tin, tout; } res;
 static lzma_stream reused = LZMA_STREAM_INIT; static int use_reused;
@@ -71,6 +71,7 @@ static void judge(const char *fault, size_t at, int tag, size_t mlen, int is_tru
 				if (rr == REF_OK && ol == a.tout && !memcmp(o1, o2, ol) && a.tout == first_content && !memcmp(o1, plain, first_content)) { n_carveout++; continue; }
 			}
 			if (!concat && mlen >= first_len && !memcmp(mut, seed, first_len) && same) { n_after_first++; continue; }	// the fault lies entirely after the first Stream / member, which is all that is decoded without CONCATENATED	// damage after the first stream, which is all that is decoded without CONCATENATED
+			if (nocheck_end && at < nocheck_end && tag == T_B_DATA && !same) { n_nocheck++; continue; }	// payload of the Stream that has no Check
 			if (seed_has_check && !same) cls = "success-with-different-data";
 			else if (seed_kind == FMT_XZ && tag != T_B_DATA && tag >= 0 && !is_trunc_inside) cls = "non-payload-damage-accepted";
 			else if (is_trunc_inside) cls = "truncated-file-reported-complete";
@@ -112,11 +113,15 @@ int main(int argc, char **argv) {
 	for (size_t i = 0; i < sizeof plain; i++) plain[i] = "abcabcabd-xyz"[i % 13] ^ (uint8_t)(i / 30);
 	long idx = 0;
 	// seeds: .xz x {crc32, crc64, sha256} x {1 Block, 2 Blocks, 2 Streams + padding, size fields}, .lzma x2, .lz x3
-	for (int si = 0; si < 17; si++) for (int reuse = 0; reuse < 2; reuse++) {
+	for (int si = 0; si < 18; si++) for (int reuse = 0; reuse < 2; reuse++) {
 		if (reuse && si >= 12) continue; if (reuse && !thorough && si % 4) continue;
 		if (idx++ % nsh != sh) continue;
-		rb_init(&so, seed, sizeof seed); plen = 0; first_len = 0; seed_has_check = 1; use_reused = reuse; seed_one_block = si < 12 && (si / 3 == 0 || si / 3 == 3);
-		if (si < 12) { unsigned check = si % 3 == 0 ? 1 : si % 3 == 1 ? 4 : 10; int lay = si / 3; seed_kind = FMT_XZ;
+		rb_init(&so, seed, sizeof seed); plen = 0; first_len = 0; seed_has_check = 1; use_reused = reuse; seed_one_block = si < 12 && (si / 3 == 0 || si / 3 == 3); nocheck_end = 0;
+		if (si == 17) {	// a Stream with Check None followed (after padding) by a Stream with CRC64: what the first Stream lacks must not weaken the second
+			seed_kind = FMT_XZ; ref_block b[2]; memset(b, 0, sizeof b); b[0].data = plain; b[0].len = 40; b[1].data = plain + 40; b[1].len = 25; b[1].dict_byte = 2;
+			ref_stream_opts o = { .padding_after = 8 }; ref_xz_stream(&so, &b[0], 1, 0, &o); first_len = so.len - 8; nocheck_end = first_len; ref_xz_stream(&so, &b[1], 1, 4, NULL); plen = 65;
+			snprintf(seed_name, sizeof seed_name, "xz:check0+check4:2streams+pad8"); }
+		else if (si < 12) { unsigned check = si % 3 == 0 ? 1 : si % 3 == 1 ? 4 : 10; int lay = si / 3; seed_kind = FMT_XZ;
 			ref_block b[2]; memset(b, 0, sizeof b); b[0].data = plain; b[0].len = 40; b[0].dict_byte = 0; b[1].data = plain + 40; b[1].len = 25; b[1].dict_byte = 2;
 			if (lay == 3) { b[0].with_csize = b[0].with_usize = 1; b[0].ndelta = 1; b[0].delta_dist[0] = 2; }
 			if (lay == 0 || lay == 3) { ref_xz_stream(&so, b, 1, check, NULL); plen = 40; first_len = so.len; }
@@ -128,7 +133,7 @@ int main(int argc, char **argv) {
 		else { seed_kind = FMT_LZ; unsigned ver = si == 14 ? 0 : 1; ref_lzip_member(&so, ver, 0x0C, plain, 40, 0, 0, 0, scratch, sizeof scratch); first_len = so.len; plen = 40;
 			if (si == 16) { ref_lzip_member(&so, 1, 0x2D, plain + 40, 25, 0, 0, 0, scratch, sizeof scratch); plen = 65; }
 			snprintf(seed_name, sizeof seed_name, "lz:v%u:%s", ver, si == 16 ? "2members" : "1member"); }
-		first_content = (seed_kind == FMT_XZ && si / 3 == 2) ? 40 : (si == 16 ? 40 : plen); pad_len = (seed_kind == FMT_XZ && si / 3 == 2) ? 8 : 0;
+		first_content = ((seed_kind == FMT_XZ && si / 3 == 2) || si == 17) ? 40 : (si == 16 ? 40 : plen); pad_len = ((seed_kind == FMT_XZ && si / 3 == 2) || si == 17) ? 8 : 0;
 		// the seed itself must decode (otherwise the reference builder is wrong: infrastructure)
 		{ memcpy(mut, seed, so.len); int okall = 1; int sv = use_reused; use_reused = 0;
 		  for (int k = 0; k < D_N; k++) if (dk_applies(k, seed_kind)) { res a = decode(k, mut, so.len, 0); size_t el = dk_concat(k) ? plen : first_content; if (a.r != LZMA_STREAM_END || a.tout != el || memcmp(o1, plain, el)) okall = 0; }
